@@ -686,10 +686,19 @@ int KSI_FsClient_extractPath(const char *uri, char **path) {
 		goto cleanup;
 	}
 
-	pathStart = strstr(uri, scheme) + strlen(scheme);
-	if (pathStart == NULL) {
-		res = KSI_INVALID_ARGUMENT;
-		goto cleanup;
+	/* The scheme is matched case-insensitively (as getClientByUriScheme does). */
+	{
+		size_t i;
+		for (i = 0; scheme[i] != '\0'; i++) {
+			char c = uri[i];
+			if (c >= 'A' && c <= 'Z') c = (char)(c - 'A' + 'a');
+			if (c != scheme[i]) break;
+		}
+		if (scheme[i] != '\0') {
+			res = KSI_INVALID_ARGUMENT;
+			goto cleanup;
+		}
+		pathStart = (char *)uri + i;
 	}
 
 	tmpPath = KSI_malloc(strlen(pathStart) + 1);
